@@ -223,3 +223,271 @@ Proof.
   - eapply bank_send_pres. exact H.
   - eapply tok_transfer_pres. exact H.
 Qed.
+
+(* ------------------------------------------------------------------------------------ *)
+(* handlers: compose the primitives                                                      *)
+(* ------------------------------------------------------------------------------------ *)
+(* goal [pres w w'] from a chain of [pres] hypotheses *)
+Ltac sol_chain :=
+  first [ solve [apply pres_same; reflexivity]
+        | eassumption
+        | match goal with
+          | H : pres ?a ?b |- pres ?a _ => apply (pres_trans _ _ _ H); sol_chain
+          end ].
+
+Ltac sol_fact H := fail.
+Ltac sol_facts :=
+  repeat match goal with
+         | H : _ = Ok _ |- _ => sol_fact H
+         end.
+Ltac sol_fin := sol_facts; cbn [fst snd] in *; sol_chain.
+Ltac sol_solve := inv_all; sol_fin.
+
+Ltac sol_fact H ::=
+  first [ apply bank_send_pres in H | apply move_funds_pres in H
+        | apply tok_transfer_pres in H | apply tok_transfer_from_pres in H
+        | apply tok_increase_allowance_pres in H | apply tok_mint_pres in H | apply tok_burn_pres in H
+        | apply pay_asset_pres in H ].
+
+Lemma pair_swap_pres w p ps funds sender offer amount bp ms to r :
+  pair_swap w p ps funds sender offer amount bp ms to = Ok r -> pres w (fst r).
+Proof. intros H. unfold pair_swap in H. cbv beta zeta in H. sol_solve. Qed.
+
+Lemma pair_withdraw_pres w p ps sender amount w' : pair_withdraw w p ps sender amount = Ok w' -> pres w w'.
+Proof. intros H. unfold pair_withdraw in H. cbv beta zeta in H. sol_solve. Qed.
+
+Lemma pair_provide_pres w p ps c funds l0 n0 l1 n1 tol rcv w' :
+  pair_provide w p ps c funds l0 n0 l1 n1 tol rcv = Ok w' -> pres w w'.
+Proof. intros H. unfold pair_provide in H. cbv beta zeta in H. sol_solve. Qed.
+
+Lemma pair_update_decimals_pres w p ps c dn d0 d1 w' : pair_update_decimals w p ps c dn d0 d1 = Ok w' -> pres w w'.
+Proof. intros H. unfold pair_update_decimals in H. cbv zeta in H. sol_solve. Qed.
+
+Ltac sol_fact H ::=
+  first [ apply bank_send_pres in H | apply move_funds_pres in H
+        | apply tok_transfer_pres in H | apply tok_transfer_from_pres in H
+        | apply tok_increase_allowance_pres in H | apply tok_mint_pres in H | apply tok_burn_pres in H
+        | apply pay_asset_pres in H
+        | apply pair_swap_pres in H | apply pair_withdraw_pres in H | apply pair_provide_pres in H
+        | apply pair_update_decimals_pres in H ].
+
+Lemma pair_receive_pres w p ps c funds cs ca h w' : pair_receive w p ps c funds cs ca h = Ok w' -> pres w w'.
+Proof. intros H. unfold pair_receive in H. cbv beta zeta in H. sol_solve. Qed.
+
+Lemma fac_update_records_pres dn k todo : forall w done w',
+  fac_update_records w dn k todo done = Ok w' -> pres w w'.
+Proof.
+  induction todo as [|r todo IH]; intros w done w' H.
+  - cbn [fac_update_records] in H. sol_solve.
+  - cbn [fac_update_records] in H. cbv beta zeta in H.
+    inv_step. inv_step. apply IH in H.
+    assert (pres w v) by sol_solve.
+    assert (pres v v0) by sol_solve.
+    sol_chain.
+Qed.
+
+Lemma fac_add_native_pres w c dn k w' : fac_add_native w c dn k = Ok w' -> pres w w'.
+Proof.
+  intros H. unfold fac_add_native in H. cbv beta zeta in H. inv_all.
+  - apply fac_update_records_pres in H.
+    eapply pres_trans; [|exact H]. apply pres_same; reflexivity.
+  - apply pres_same; reflexivity.
+Qed.
+
+Lemma fac_update_config_pres w c o w' : fac_update_config w c o = Ok w' -> pres w w'.
+Proof. intros H. unfold fac_update_config in H. inv_all; destruct o; apply pres_same; reflexivity. Qed.
+
+Lemma fac_migrate_pair_pres w c ct w' : fac_migrate_pair w c ct = Ok w' -> pres w w'.
+Proof. intros H. unfold fac_migrate_pair in H. inv_all. apply pres_refl. Qed.
+
+Ltac sol_fact H ::=
+  first [ apply bank_send_pres in H | apply move_funds_pres in H
+        | apply tok_transfer_pres in H | apply tok_transfer_from_pres in H
+        | apply tok_increase_allowance_pres in H | apply tok_mint_pres in H | apply tok_burn_pres in H
+        | apply pay_asset_pres in H
+        | apply pair_swap_pres in H | apply pair_withdraw_pres in H | apply pair_provide_pres in H
+        | apply pair_update_decimals_pres in H | apply pair_receive_pres in H
+        | apply fac_add_native_pres in H | apply fac_update_config_pres in H | apply fac_migrate_pair_pres in H ].
+
+Lemma router_hop_pres w offer ask to w' : router_hop w offer ask to = Ok w' -> pres w w'.
+Proof. intros H. unfold router_hop in H. cbv beta zeta in H. sol_solve. Qed.
+
+Ltac sol_fact H ::=
+  first [ apply bank_send_pres in H | apply move_funds_pres in H
+        | apply tok_transfer_pres in H | apply tok_transfer_from_pres in H
+        | apply tok_increase_allowance_pres in H | apply tok_mint_pres in H | apply tok_burn_pres in H
+        | apply pay_asset_pres in H
+        | apply pair_swap_pres in H | apply pair_withdraw_pres in H | apply pair_provide_pres in H
+        | apply pair_update_decimals_pres in H | apply pair_receive_pres in H
+        | apply fac_add_native_pres in H | apply fac_update_config_pres in H | apply fac_migrate_pair_pres in H
+        | apply router_hop_pres in H ].
+
+Lemma router_hops_pres ops : forall w to w', router_hops w ops to = Ok w' -> pres w w'.
+Proof.
+  induction ops as [|p ops IH]; intros w to w' H.
+  - cbn in H. sol_solve.
+  - destruct ops as [|q rest].
+    + destruct p as [o a]. cbn [router_hops] in H. sol_solve.
+    + rewrite FrameProofs.router_hops_cons2 in H. inv_step. apply IH in H. sol_fin.
+Qed.
+
+Lemma router_assert_min_pres w t prev m r w' : router_assert_min w t prev m r = Ok w' -> pres w w'.
+Proof. intros H. apply router_assert_min_same in H. subst w'. apply pres_refl. Qed.
+
+Lemma router_exec_ops_pres w s ops m to w' : router_exec_ops w s ops m to = Ok w' -> pres w w'.
+Proof.
+  intros H. unfold router_exec_ops in H. cbv beta zeta in H.
+  destruct ops as [|p ops]; [discriminate|].
+  inv_step. destruct m as [m|].
+  - inv_step. inv_step. apply router_hops_pres in E1. apply router_assert_min_pres in H. sol_chain.
+  - apply router_hops_pres in H. exact H.
+Qed.
+
+Ltac sol_fact H ::=
+  first [ apply bank_send_pres in H | apply move_funds_pres in H
+        | apply tok_transfer_pres in H | apply tok_transfer_from_pres in H
+        | apply tok_increase_allowance_pres in H | apply tok_mint_pres in H | apply tok_burn_pres in H
+        | apply pay_asset_pres in H
+        | apply pair_swap_pres in H | apply pair_withdraw_pres in H | apply pair_provide_pres in H
+        | apply pair_update_decimals_pres in H | apply pair_receive_pres in H
+        | apply fac_add_native_pres in H | apply fac_update_config_pres in H | apply fac_migrate_pair_pres in H
+        | apply router_hop_pres in H | apply router_exec_ops_pres in H | apply router_assert_min_pres in H ].
+
+Lemma cw20_send_pres w ta s target n h w' : cw20_send w ta s target n h = Ok w' -> pres w w'.
+Proof. intros H. unfold cw20_send in H. cbv beta zeta in H. sol_solve. Qed.
+
+Ltac sol_fact H ::=
+  first [ apply bank_send_pres in H | apply move_funds_pres in H
+        | apply tok_transfer_pres in H | apply tok_transfer_from_pres in H
+        | apply tok_increase_allowance_pres in H | apply tok_mint_pres in H | apply tok_burn_pres in H
+        | apply pay_asset_pres in H
+        | apply pair_swap_pres in H | apply pair_withdraw_pres in H | apply pair_provide_pres in H
+        | apply pair_update_decimals_pres in H | apply pair_receive_pres in H
+        | apply fac_add_native_pres in H | apply fac_update_config_pres in H | apply fac_migrate_pair_pres in H
+        | apply router_hop_pres in H | apply router_exec_ops_pres in H | apply router_assert_min_pres in H
+        | apply cw20_send_pres in H ].
+
+(* pair creation installs an LP token with supply 0 and all balances 0 *)
+Lemma set_token_zero_pres w lp lt : (forall a, t_bal lt a = 0) -> t_supply lt = 0 -> pres w (set_token w lp lt).
+Proof.
+  intros Hb Hs (S1 & S2 & S3). split; [|split].
+  - intros d l Hl. exact (S1 d l Hl).
+  - intros t l Hl. rewrite set_token_supply.
+    destruct (t =? lp) eqn:E; [apply N.eqb_eq in E; subst t | apply N.eqb_neq in E].
+    + rewrite sum_bal_sumf, sumf_zero; [apply N.le_0_l|].
+      intros a. rewrite set_token_bal, LedgerProofs.asset_eqb_refl. apply Hb.
+    + rewrite (sum_same w (set_token w lp lt) (AToken t) l); [apply S2; exact Hl|].
+      intros a _. rewrite set_token_bal. cbn [asset_eqb]. apply N.eqb_neq in E. rewrite E. reflexivity.
+  - intros t. rewrite set_token_supply. destruct (t =? lp); [|apply S3].
+    rewrite Hs. apply W128_pos.
+Qed.
+
+Lemma fac_create_pair_pres w c a0 a1 wl m0 m1 cm ld w' :
+  fac_create_pair w c a0 a1 wl m0 m1 cm ld = Ok w' -> pres w w'.
+Proof.
+  intros H. unfold fac_create_pair in H.
+  destruct (negb _); [discriminate|]. destruct (asset_eqb a0 a1); [discriminate|].
+  destruct (match cm with Some c0 => D <? c0 | None => false end); [discriminate|].
+  bnd H d0 Hd0. bnd H d1 Hd1. destruct (reg_find _ _ _); [discriminate|]. cbv zeta in H.
+  destruct (18 <? _); [discriminate|]. inversion H. clear H.
+  match goal with |- pres w (set_next (set_reg (set_token ?w1 ?lp ?lt) _) _) =>
+    apply (pres_trans w w1); [apply pres_same; reflexivity|];
+    apply (pres_trans w1 (set_token w1 lp lt)); [|apply pres_same; reflexivity];
+    apply set_token_zero_pres; [intros a|]; reflexivity
+  end.
+Qed.
+
+(* ------------------------------------------------------------------------------------ *)
+(* THE theorems                                                                          *)
+(* ------------------------------------------------------------------------------------ *)
+Lemma exec_pres w o w' : exec w o = Ok w' -> pres w w'.
+Proof.
+  intros H. destruct o; unfold exec in H; try solve [sol_solve].
+  eapply fac_create_pair_pres. exact H.
+Qed.
+
+(* every operation preserves solvency (in a well-formed world), hence every history does *)
+Theorem exec_preserves_Solvent : forall w o w', WF w -> Solvent w -> exec w o = Ok w' -> Solvent w'.
+Proof. intros w o w' _ HS H. exact (exec_pres w o w' H HS). Qed.
+
+Theorem run_preserves_Solvent : forall ops w, WF w -> Solvent w -> WF (run w ops) /\ Solvent (run w ops).
+Proof.
+  induction ops as [|o ops IH]; intros w HW HS.
+  - split; assumption.
+  - change (run w (o :: ops)) with (run (step w o) ops). apply IH.
+    + apply step_preserves_WF. exact HW.
+    + unfold step. destruct (exec w o) as [w'|e] eqn:E; [|exact HS].
+      eapply exec_preserves_Solvent; eassumption.
+Qed.
+
+(* ------------------------------------------------------------------------------------ *)
+(* consequences                                                                          *)
+(* ------------------------------------------------------------------------------------ *)
+Lemma NoDup_one (a : addr) : NoDup [a].
+Proof. apply NoDup_cons; [intros [] | apply NoDup_nil]. Qed.
+Lemma NoDup_two (a b : addr) : a <> b -> NoDup [a; b].
+Proof. intros H. apply NoDup_cons; [|apply NoDup_one]. intros [E|[]]. apply H. symmetry. exact E. Qed.
+
+Lemma sum_bal_one w x a : sum_bal w x [a] = bal w x a.
+Proof. unfold sum_bal. cbn [fold_right]. apply N.add_0_r. Qed.
+Lemma sum_bal_two w x a b : sum_bal w x [a; b] = bal w x a + bal w x b.
+Proof. unfold sum_bal. cbn [fold_right]. rewrite N.add_0_r. reflexivity. Qed.
+
+Theorem Solvent_token_le_supply : forall w t a, Solvent w -> bal w (AToken t) a <= supply w t.
+Proof. intros w t a (_ & S2 & _). rewrite <- sum_bal_one. apply S2. apply NoDup_one. Qed.
+
+Theorem Solvent_token_two : forall w t a b, Solvent w -> a <> b -> bal w (AToken t) a + bal w (AToken t) b <= supply w t.
+Proof. intros w t a b (_ & S2 & _) Hab. rewrite <- sum_bal_two. apply S2. apply NoDup_two. exact Hab. Qed.
+
+Theorem Solvent_bal : forall w x a, Solvent w -> bal w x a < W128.
+Proof.
+  intros w x a HS. destruct x as [d|t].
+  - destruct HS as (S1 & _ & _). rewrite <- sum_bal_one. apply S1. apply NoDup_one.
+  - pose proof (Solvent_token_le_supply w t a HS) as L. destruct HS as (_ & _ & S3). specialize (S3 t).
+    clear - L S3. lia.
+Qed.
+
+Theorem Solvent_two : forall w x a b, Solvent w -> a <> b -> bal w x a + bal w x b < W128.
+Proof.
+  intros w x a b HS Hab. destruct x as [d|t].
+  - destruct HS as (S1 & _ & _). rewrite <- sum_bal_two. apply S1. apply NoDup_two. exact Hab.
+  - pose proof (Solvent_token_two w t a b HS Hab) as L. destruct HS as (_ & _ & S3). specialize (S3 t).
+    clear - L S3. lia.
+Qed.
+
+(* C20 with ALL side hypotheses discharged by the two invariants: in any world reachable from a well-formed, solvent
+   start, a holder can withdraw any amount up to their balance that meets the entitlement condition *)
+Theorem withdraw_tx_succeeds_invariants : forall w0 w p ps holder a lt,
+  WF w0 -> Solvent w0 -> reachable w0 w ->
+  w_pairs w p = Some ps -> w_tokens w (p_lp ps) = Some lt ->
+  holder <> p -> 1 <= a -> a <= t_bal lt holder ->
+  bal w (p_a0 ps) p * t_supply lt + 2 * t_supply lt * D <= bal w (p_a0 ps) p * a * D ->
+  bal w (p_a1 ps) p * t_supply lt + 2 * t_supply lt * D <= bal w (p_a1 ps) p * a * D ->
+  exists w', cw20_send w (p_lp ps) holder p a HWithdraw = Ok w'.
+Proof.
+  intros w0 w p ps holder a lt HW0 HS0 Hr Hp Hlt Hh Ha1 Ha2 E0 E1.
+  assert (HW : WF w) by (eapply WF_reachable; eassumption).
+  assert (HS : Solvent w).
+  { destruct Hr as [ops ->]. apply run_preserves_Solvent; assumption. }
+  assert (Eb : forall x, bal w (AToken (p_lp ps)) x = t_bal lt x) by (intros x; cbn [bal]; rewrite Hlt; reflexivity).
+  assert (Es : supply w (p_lp ps) = t_supply lt) by (unfold supply; rewrite Hlt; reflexivity).
+  pose proof (Solvent_token_le_supply w (p_lp ps) holder HS) as L1. rewrite Eb, Es in L1.
+  pose proof (Solvent_token_two w (p_lp ps) holder p HS Hh) as L2. rewrite !Eb, Es in L2.
+  assert (L3 : t_supply lt < W128) by (rewrite <- Es; apply HS).
+  apply (withdraw_tx_succeeds_WF w p ps holder a lt HW Hp Hlt Hh Ha1 Ha2 L1).
+  - clear - Ha2 L2 L3. lia.
+  - apply Solvent_bal. exact HS.
+  - apply Solvent_bal. exact HS.
+  - apply Solvent_two; assumption.
+  - apply Solvent_two; assumption.
+  - exact E0.
+  - exact E1.
+Qed.
+
+Print Assumptions exec_preserves_Solvent.
+Print Assumptions run_preserves_Solvent.
+Print Assumptions Solvent_bal.
+Print Assumptions Solvent_two.
+Print Assumptions Solvent_token_le_supply.
+Print Assumptions Solvent_token_two.
+Print Assumptions withdraw_tx_succeeds_invariants.
